@@ -198,3 +198,25 @@ Example C04_example_pool :
       (run_pool wfixed {| p_discard := false; p_per_instance := true |} starts offs durs)
   = [Fire; Fire; Fire; Fire; Fire; Fire; Fire; Fire].
 Proof. vm_compute. repeat split. Qed.
+
+(* The run-length bound, for whole pools: with discard_overflow enabled (current tree) every
+   instance -- own schedule or shared -- is done within 2 s + ONE response time of the end of the
+   profile (counted from the start of the last instance), however slow the target is and however
+   many responses are that slow.  [pool_final] = the state each instance is left in by the run
+   whose shots are [run_pool] (run_steps_run_inst). *)
+Theorem C04_pool_run_length_bounded : forall p starts offs durs smax omax dmax,
+  p_discard p = true ->
+  Forall (Forall (fun x => 0 <= x <= dmax)) durs -> 0 <= dmax ->
+  Forall (fun s => s <= smax) starts -> Forall (fun o => o <= omax) offs -> 0 <= omax ->
+  Forall (fun s => is_free s <= smax + omax + max_overdue + dmax) (pool_final wfixed p starts offs durs).
+Proof. exact pool_run_length. Qed.
+Print Assumptions C04_pool_run_length_bounded.
+
+(* non-vacuity, and the contrast: 10 rps for 1 s, every response takes 3 s.  Enabled: the
+   instance is done 3 s after the start (one shot, nine discards); disabled: after 30 s. *)
+Example C04_example_run_length :
+  let offs := map (fun k => k * 100000000) [0;1;2;3;4;5;6;7;8;9] in
+  let durs := [repeat 3000000000 10] in
+  map is_free (pool_final wfixed {| p_discard := true; p_per_instance := true |} [0] offs durs) = [3000000000] /\
+  map is_free (pool_final wfixed {| p_discard := false; p_per_instance := true |} [0] offs durs) = [30000000000].
+Proof. vm_compute. split; reflexivity. Qed.
